@@ -38,6 +38,10 @@ func logField(logged, key string) (string, bool) {
 // and a decode failure is recognised by the decoder's own error text for that plaintext appearing in the log.
 func handleReal(key, raw []byte) (out string, plain []byte, logged string) {
 	logged, panicked := ble.VerifHandle(key, raw, false)
+	return canonHandle(logged, panicked, key, raw)
+}
+
+func canonHandle(logged string, panicked bool, key, raw []byte) (out string, plain []byte, _ string) {
 	if panicked {
 		return "PANIC", nil, logged
 	}
@@ -103,12 +107,20 @@ func encryptFor(key []byte, nonce uint16, plain []byte) []byte {
 }
 
 func suiteC19(rng *Rng, thorough bool, s *Sink) {
+	// besides a fresh handler per advertisement, ONE handler sees the whole sequence (same device name, changing keys):
+	// what it does with an advertisement must not depend on the ones it handled before
+	session := ble.VerifSessionNew()
 	emit := func(tag string, key, raw []byte) {
 		out, plain, logged := handleReal(key, raw)
 		op := fmt.Sprintf("BH %s %s", hexOrDash(key), hexOrDash(raw))
 		s.Line(tag, op, out)
 		// the property, directly
 		viol := func(w string) { s.Violate(op, out, w) }
+		slog, spanic := session.Handle(key, raw)
+		if sout, _, _ := canonHandle(slog, spanic, key, raw); sout != out {
+			s.Line(tag+"-in-sequence", op+" mut:handler-has-seen-earlier-advertisements", sout)
+			viol(fmt.Sprintf("a handler that has handled earlier advertisements of the device (other keys) gives %s; a fresh handler gives %s", sout, out))
+		}
 		if out == "PANIC" {
 			viol(fmt.Sprintf("advertisement handling panics (payload %d bytes, key %d bytes)", len(raw), len(key)))
 			return
